@@ -25,6 +25,9 @@ func init() {
 			{Name: "fserr-not-fatal-on-request", File: "extractor/filesystem/filesystem.go", Old: "			return fmt.Errorf(\"handleFile(%q) fserr: %w\", path, fserr)", New: "			log.Errorf(\"handleFile(%q) fserr: %v\", path, fserr)", Rule: "D1-fatal-on-request", Site: "handleFile"},
 			{Name: "open-error-dropped", File: "extractor/filesystem/filesystem.go", Old: "		addErrToMap(wc.errors, ex.Name(), fmt.Errorf(\"Open(%s): %w\", path, err))\n", New: "", Rule: "D3-surfaced", Site: "Open"},
 			{Name: "status-partial-swapped", File: "plugin/plugin.go", Old: "		if partial {\n			status.Status = ScanStatusPartiallySucceeded\n		} else {\n			status.Status = ScanStatusFailed\n		}", New: "		if partial {\n			status.Status = ScanStatusFailed\n		} else {\n			status.Status = ScanStatusPartiallySucceeded\n		}", Rule: "D3-status", Site: "StatusFromErr"},
+			{Name: "overall-status-inverted", File: "scalibr.go", Old: "	if o.Err != nil {\n		status.Status = plugin.ScanStatusFailed", New: "	if o.Err == nil {\n		status.Status = plugin.ScanStatusFailed", Rule: "D4-overall", Site: "newScanResult"},
+			{Name: "overall-status-overwritten", File: "scalibr.go", Old: "	} else {\n		status.Status = plugin.ScanStatusSucceeded\n	}\n	r := &ScanResult{", New: "	}\n	status.Status = plugin.ScanStatusSucceeded\n	r := &ScanResult{", Rule: "D4-overall", Site: "newScanResult"},
+			{Name: "overall-status-failed-not-set", File: "scalibr.go", Old: "		status.Status = plugin.ScanStatusFailed\n		status.FailureReason = o.Err.Error()\n	} else {", New: "		status.FailureReason = o.Err.Error()\n		if len(o.ExtractorStatus) == 0 {\n			status.Status = plugin.ScanStatusFailed\n		}\n	} else {", Rule: "D4-overall", Site: "newScanResult"},
 			{Name: "pop-unguarded", File: "extractor/filesystem/filesystem.go", Old: "if wc.useGitignore && d.Type().IsDir() && len(wc.gitignores) > 0 {", New: "if wc.useGitignore && d.Type().IsDir() {", Rule: "D5-pop", Site: "postHandleFile"},
 			{Name: "readdir-error-not-reported", File: "extractor/filesystem/internal/walkdir_iterate.go", Old: "	dirs, err := readDir(fsys, name)\n	if err != nil {\n		// Second call, to report ReadDir error.\n		// Same error handling as in fs.WalkDir: If an error occurred, the walkDirFn is called again,\n		// which can decide to continue (nil), SkipDir or skip all by other errors (e.g. SkipAll).\n		err = walkDirFn(name, d, err)", New: "	dirs, err := readDir(fsys, name)\n	if err != nil {\n		err = walkDirFn(name, d, nil)", Rule: "D2-second-call", Site: "readDir"},
 			{Name: "scan-drops-run-error", File: "scalibr.go", Old: "	inv, extractorStatus, err := filesystem.Run(ctx, extractorConfig)\n	if err != nil {\n		sro.Err = err", New: "	inv, extractorStatus, err := filesystem.Run(ctx, extractorConfig)\n	if err != nil {\n		log.Errorf(\"%v\", err)", Rule: "D4-overall", Site: "filesystem.Run"},
@@ -399,6 +402,9 @@ func c09SecondCall(p *Prog, r *Report, e *engine) {
 			cut = edgesOf(eof)
 		}
 		for _, ed := range holds {
+			if cut[ed] {
+				continue // the io.EOF edge is itself an "error is not nil" edge
+			}
 			w.noPath("D2-second-call", src.name+"-error-reported", edgeStart(ed), isReturn, isCBwith(isErr), cut,
 				"a failed "+src.name+" is reported to the callback as (name, d, err)", "a failed "+src.name+" can end the directory without the callback being told (the failure is neither surfaced nor fatal)")
 		}
@@ -723,7 +729,7 @@ func c09Overall(p *Prog, r *Report) {
 	}
 	fb := newFA(p, r, nsr)
 	consts := pluginStatusConsts(p)
-	var sFail, sOK ssa.Instruction
+	var sFails, sOKs []ssa.Instruction
 	forEachInstr(nsr, func(_ *ssa.BasicBlock, _ int, in ssa.Instruction) {
 		st, ok := in.(*ssa.Store)
 		if !ok || !storesField("ScanStatus", "Status")(in) {
@@ -731,21 +737,50 @@ func c09Overall(p *Prog, r *Report) {
 		}
 		if k, ok := constInt(st.Val); ok {
 			if k == consts["ScanStatusFailed"] {
-				sFail = in
+				sFails = append(sFails, in)
 			}
 			if k == consts["ScanStatusSucceeded"] {
-				sOK = in
+				sOKs = append(sOKs, in)
 			}
 		}
 	})
 	errField := condNonNil(isFieldLoad("newScanResultOptions", "Err"))
-	if sFail == nil || sOK == nil {
+	if len(sFails) == 0 || len(sOKs) == 0 {
 		r.Fail("D4-overall", fb.key+":status", p.Pos(nsr.Pos()), "newScanResult does not set Failed/Succeeded")
-	} else {
-		g1, _ := fb.guarded(sFail, true, errField)
-		g2, _ := fb.guarded(sOK, false, errField)
-		r.Check(g1 && g2, "D4-overall", fb.key+":status", p.Pos(nsr.Pos()), "Err != nil ⇔ ScanStatusFailed", "the overall status is not Failed exactly when an error was recorded")
+		return
 	}
+	// the status the result carries is the one stored last: Failed is stored only under Err != nil
+	// and nothing stores Succeeded after it; every run that never takes an "Err == nil" edge stores
+	// Failed, every run that never takes an "Err != nil" edge stores Succeeded (whether Succeeded is
+	// written in an else branch or as the initial value that the failure overwrites)
+	isIn := func(set []ssa.Instruction) func(ssa.Instruction) bool {
+		return func(in ssa.Instruction) bool {
+			for _, x := range set {
+				if x == in {
+					return true
+				}
+			}
+			return false
+		}
+	}
+	okAll := true
+	for _, f := range sFails {
+		g1, _ := fb.guarded(f, true, errField)
+		okAll = okAll && g1
+		pt := pointOf(f)
+		pt.I++
+		if w := findPath(pt, isIn(sOKs), nil, nil); w != nil {
+			okAll = false
+		}
+	}
+	errSet, errNil := guardEdges(nsr, errField)
+	if w := findPath(entryPoint(nsr), isReturn, isIn(sFails), edgesOf(errNil)); w != nil {
+		okAll = false
+	}
+	if w := findPath(entryPoint(nsr), isReturn, isIn(sOKs), edgesOf(errSet)); w != nil {
+		okAll = false
+	}
+	r.Check(okAll, "D4-overall", fb.key+":status", p.Pos(nsr.Pos()), "Err != nil ⇔ ScanStatusFailed", "the overall status is not Failed exactly when an error was recorded")
 }
 
 func c09Pop(p *Prog, r *Report, e *engine) {
